@@ -50,23 +50,8 @@ def host_texts(cases):
 
 def darwin_texts(cases):
     """The same windows rendered by the package imported in a fresh interpreter that has Darwin's tables."""
-    import json
-    import os
-    import subprocess
-    import sys
-    if not cases:
-        return []
-    tools = os.path.dirname(os.path.dirname(os.path.dirname(os.path.abspath(__file__))))
-    env = dict(os.environ)
-    env['REPO_DIR'] = core.REPO
-    env['PYTHONPATH'] = tools
-    p = subprocess.run([sys.executable, '-m', 'kdv.hostproc'], input='\n'.join(json.dumps(c) for c in cases) + '\n',
-                       capture_output=True, text=True, cwd=tools, env=env)
-    out = [json.loads(l) for l in p.stdout.splitlines()]
-    if p.returncode != 0 or len(out) != len(cases):
-        raise core.Infra('fresh-interpreter runner failed: rc=%s, %d of %d answers\n%s'
-                         % (p.returncode, len(out), len(cases), p.stderr[-1500:]))
-    return out
+    from .. import neighbours
+    return neighbours.texts(cases, 'darwin')
 
 
 def demo_case(name, start=None, end=None):
@@ -78,7 +63,7 @@ NEGATIVES = [(1 << 64) - 1, (1 << 64) - 2, (1 << 64) - 9, (1 << 32) - 1, (1 << 3
 
 
 def correspondence(rep, rng, tier):
-    D.section_decoders(rep, rng, tier, per=2 if tier == 'quick' else 30, name='decoders')
+    D.section_decoders(rep, rng, tier, per=2 if tier == 'quick' else 30, name='decoders', syntax=2 if tier == 'quick' else 40)
     ht = host_tables()
     ref = {'errno': DARWIN_ERRNO, 'signals': DARWIN_SIGNALS, 'addressFamily': DARWIN_AF, 'socketKind': DARWIN_SK}
     sec = rep.section('host-vs-darwin')
@@ -113,6 +98,10 @@ def correspondence(rep, rng, tier):
         targeted_search(rep, diffs, tier, ht)
         if rep.broken and not any(f['signature'].startswith('host:new-dependence') for f in rep.failures):
             pairwise_search(rep, diffs, ht)
+    # "the text depends only on the dump and the options": not on what the interpreter rendered before, under this host's
+    # tables and under Darwin's (tools/kdv/neighbours.py; oracle: same text as first thing in a fresh interpreter)
+    from .. import neighbours
+    neighbours.history_section(rep, rng, tier, 'decoders-history', select='all', hosts=('host', 'darwin'))
     # every decoder on random windows under both hosts: differences only where a known reader meets a differing code
     from pykdebugparser.trace_handlers.bsd import handlers as bsd_handlers
     per = 3 if tier == 'quick' else 40
@@ -285,6 +274,13 @@ def replay(path):
     if 'replay' not in r or 'case' not in r['replay']:
         print(json.dumps(r, indent=1)[:4000])
         return 1
+    if r['replay'].get('section', '').startswith('decoders-history'):
+        from .. import neighbours
+        bad, lines = neighbours.replay(r['replay'])
+        print('\n'.join(lines))
+        if bad:
+            print(f'VIOLATION property=C18 replay={path}')
+        return 1 if bad else 0
     c = r['replay']['case']
     a = run(c)
     b = darwin_texts([c])[0]
